@@ -36,11 +36,11 @@ var targets = []string{
 }
 
 var importMap = map[string]string{
-	"sync":                             rtPath + "vsync",
-	"sync/atomic":                      rtPath + "vatomic",
-	"time":                             rtPath + "vtime",
-	"context":                          rtPath + "vctx",
-	"golang.org/x/sync/singleflight":   rtPath + "vsingleflight",
+	"sync":                           rtPath + "vsync",
+	"sync/atomic":                    rtPath + "vatomic",
+	"time":                           rtPath + "vtime",
+	"context":                        rtPath + "vctx",
+	"golang.org/x/sync/singleflight": rtPath + "vsingleflight",
 }
 var importName = map[string]string{
 	"sync": "sync", "sync/atomic": "atomic", "time": "time", "context": "context",
